@@ -48,7 +48,8 @@ BOUNDS = {
              "overlay_grid / the constructor / mapper.neighbors / source_plane_mesh_grid.neighbors; fan vertex sets fan7 / fan14 (degree-6 vertex) with the "
              "sub-pixels of one data pixel spread over triangles touching 7 (sub 2) / 13 (sub 3) distinct vertices; histories on one mapper object: "
              "pixel_signals_from(signal_scale in {1,2}) before / between pix_sub_weights, mapping_matrix, unique_mappings in 3 listed orders, adapt data "
-             "symbolic (rectangular, and Delaunay with one data pixel) or from a concrete list (Delaunay with several data pixels)",
+             "symbolic (rectangular, and Delaunay with one data pixel) or from a concrete list (Delaunay with several data pixels); Delaunay source planes "
+             "(vertices and symbolic positions) also scaled by the dyadic factors 2^-12 and 2^-20 (thorough: 2^-8 as well)",
     "thorough": "same scheme with sub sizes 1..4, meshes up to 7x8, masks of 2x3 by forking, vertex set v9, two free points per Delaunay case, symbolic-box "
                 "mapper case with a free third point, every assignment of the extremes for 3 points, index tables with up to 10 mappings; neighbour histories: "
                 "pairs 3..8, equal-pixel triples 3..10, singles 3..12, triples of Delaunay sets",
@@ -800,16 +801,19 @@ def _bary(v0, v1, v2, p):
     return [1 - l1 - l2, l1, l2]
 
 
-def _verts(name, exact):
+def _verts(name, exact, cexp=0):
+    """vertex set scaled by the dyadic factor 2**-cexp (exact in float64 and as rationals)"""
     vs = VERTS[name]
     if exact:
-        return [(Fraction(v[0]), Fraction(v[1])) for v in vs]
-    return [(float(v[0]), float(v[1])) for v in vs]
+        f = Fraction(1, 2 ** cexp)
+        return [(Fraction(v[0]) * f, Fraction(v[1]) * f) for v in vs]
+    f = 2.0 ** -cexp
+    return [(float(v[0]) * f, float(v[1]) * f) for v in vs]
 
 
-def _tri(name):
+def _tri(name, cexp=0):
     import scipy.spatial
-    return scipy.spatial.Delaunay(np.array(VERTS[name], dtype=float))
+    return scipy.spatial.Delaunay(np.array(VERTS[name], dtype=float) * 2.0 ** -cexp)
 
 
 def _dist2_lin(v, p):
@@ -817,7 +821,7 @@ def _dist2_lin(v, p):
     return v[0] * v[0] + v[1] * v[1] - 2 * (v[0] * p[0] + v[1] * p[1])
 
 
-def body_del(inp, mask, sub, verts, order=None, scale=1.0, **_):
+def body_del(inp, mask, sub, verts, order=None, scale=1.0, cexp=0, **_):
     import autoarray as aa
     m, os_, sub_list, ref_slim, ref_frac = _setup(mask, sub)
     D, N = len(sub_list), len(ref_slim)
@@ -825,10 +829,10 @@ def body_del(inp, mask, sub, verts, order=None, scale=1.0, **_):
     symbolic = any(_sym(e) for e in pos.reshape(-1))
     if not symbolic:
         pos = pos.astype(float)
-    vs = _verts(verts, symbolic)
+    vs = _verts(verts, symbolic, cexp)
     P = len(vs)
     A, E = {}, {}
-    mesh = aa.Mesh2DDelaunay(values=np.array(VERTS[verts], dtype=float))
+    mesh = aa.Mesh2DDelaunay(values=np.array(VERTS[verts], dtype=float) * 2.0 ** -cexp)
     tri = mesh.delaunay
     simplices = [[int(a) for a in row] for row in tri.simplices]
     if symbolic:
@@ -912,15 +916,17 @@ def body_del(inp, mask, sub, verts, order=None, scale=1.0, **_):
     return A, E
 
 
-def case_del(ctx, mshape, sub, verts, plan, mask=None, span=4.0, order=None, scale=1.0, adapt=None):
+def case_del(ctx, mshape, sub, verts, plan, mask=None, span=4.0, order=None, scale=1.0, adapt=None, cexp=0):
     """plan: per sub-pixel (cyclic) either "free" (fork over every simplex and 'outside') or a simplex index / -1 it is pinned to"""
     mask = _mask_from(ctx, mshape, mask)
     D = int((~mask).sum())
     sub_list = SUB_PATTERNS[sub][:D]
     N = sum(s * s for s in sub_list)
     Nmax = sum(s * s for s in SUB_PATTERNS[sub][:int(np.prod(mshape))])
-    vs = _verts(verts, True)
-    simplices = [[int(a) for a in row] for row in _tri(verts).simplices]
+    # cexp: the whole source plane (vertices and sub-pixel positions) is scaled by 2**-cexp - the interpolation is scale free
+    vs = _verts(verts, True, cexp)
+    span = Fraction(span) / 2 ** cexp
+    simplices = [[int(a) for a in row] for row in _tri(verts, cexp).simplices]
     S, P = len(simplices), len(vs)
     pos = V.real_array("p", (Nmax, 2))
     cy = sum(v[0] for v in vs) / P
@@ -965,7 +971,7 @@ def case_del(ctx, mshape, sub, verts, plan, mask=None, span=4.0, order=None, sca
     ad = _adapt_input(ctx, adapt, int(np.prod(mshape)))
     if ad is not None:
         inputs["adapt"] = ad
-    kw = {"mask": mask.tolist(), "sub": sub, "verts": verts, "order": order, "scale": scale}
+    kw = {"mask": mask.tolist(), "sub": sub, "verts": verts, "order": order, "scale": scale, "cexp": cexp}
     hx.run_body(ctx, body_del, inputs, kw, tol=TOLS, validate_every=8, groups=lambda k: "e2e" if k.startswith("e2e") else None)
 
 
@@ -1119,6 +1125,16 @@ def cases(tier):
         ]
     for c in dl:
         out.append(("case_del", c))
+    # --- the same interpolation on a source plane scaled by 2**-cexp (coordinates ~1e-3 / ~1e-6, triangle areas ~1e-7 / ~1e-12)
+    sc = [dict(mshape=[1, 1], sub="c", verts="v5", plan=["free"], mask=[[False]], cexp=12),
+          dict(mshape=[1, 2], sub="b", verts="v6", plan=["free", 0, 1, 3, 2], mask=M12, cexp=12),
+          dict(mshape=[1, 1], sub="e", verts="fan7", plan="spread", mask=[[False]], cexp=20)]
+    if not q:
+        sc += [dict(mshape=[1, 1], sub="c", verts="v7", plan=["free"], mask=[[False]], cexp=20),
+               dict(mshape=[1, 2], sub="d", verts="fan14", plan="spread", mask=M12, cexp=12),
+               dict(mshape=[1, 2], sub="a", verts="v6", plan=[0, 4, 2, 3, -1], mask=M12, cexp=8)]
+    for c in sc:
+        out.append(("case_del", c))
     # --- data pixels whose sub-pixels touch many distinct vertices (fan around a degree-6 vertex): the sparse encoding needs more
     #     than sub_size**2 + 2 columns (7 of fan7 for sub 2; 13 of fan14 for sub 3)
     wide = [dict(mshape=[1, 1], sub="e", verts="fan7", plan="spread", mask=[[False]]),
@@ -1189,4 +1205,5 @@ def replay(cand):
         kw.pop(k, None)
     c2["case_kwargs"] = kw
     c2["case"] = case
-    return hx.replay_body(BODIES[cand["case_fn"]], c2, tol=1e-7)
+    # Delaunay obligations are exact identities on dyadic vertices: a tight replay tolerance lets deviations of 1e-8 reproduce
+    return hx.replay_body(BODIES[cand["case_fn"]], c2, tol=1e-10 if cand["case_fn"] == "case_del" else 1e-7)
